@@ -79,7 +79,7 @@ theorem override_applies (dM dL : Nat) (base o : Section) (lang : String) (m l :
   simp [effective, List.find?, hm, hl]
 
 /-- non-vacuity -/
-example : countMethods .py [.pub, .priv, .dunder, .ctor, .property, .static, .pub] = 3 ∧
+example : countMethods .py [.pub, .priv, .dunder, .ctor, .property, .static, .pub, .asyncPub] = 4 ∧
     countMethods .ts [.pub, .priv, .ctor, .property, .static] = 3 ∧ countMethods .rs [.ctor, .pub, .priv] = 2 ∧
     evaluate ⟨2, 10, true⟩ 3 11 true = [.methods 3 2, .lines 11 10, .keyword] ∧
     countLoc .py [.code, .blank, .comment, .code] = 2 ∧ countLoc .ts [.code, .blank, .comment, .code] = 4 := by decide
